@@ -72,9 +72,14 @@ pub fn run(ctx: &Ctx) -> Outcome {
               // the same experiment under several call schedules on one object: one call; one unit, then the rest;
               // a unit-aligned short call, then the rest (the shape must not depend on how the data was fed)
               let mut schedules: Vec<Vec<P>> = vec![vec![p(l, Kind::InPlace)]];
+              if dec.kinds.contains(&Kind::B2b) {
+                  schedules.push(vec![p(l, Kind::B2b)]);
+              }
               if dec.multi && l >= 3 * u {
                   schedules.push(vec![p(u, Kind::InPlace), p(l - u, Kind::InPlace)]);
                   schedules.push(vec![p(2 * u, Kind::B2b), p(l - 2 * u, Kind::InPlace)]);
+                  // an empty call first, and one in the middle
+                  schedules.push(vec![p(0, Kind::InPlace), p(u, Kind::InPlace), p(0, Kind::InPlace), p(l - u, Kind::B2b)]);
               }
               for pieces in &schedules {
                 let pieces = &pieces[..];
@@ -189,7 +194,7 @@ pub fn run(ctx: &Ctx) -> Outcome {
         rep.finish()
     });
     let mut o = merge(reports);
-    o.rule = "stateless exhaustive: mode x configuration x IV x data x n units (blocks; bytes for CFB-8 and the stream modes) x call schedule (one call; one unit then the rest; two units b2b then the rest) x position j x difference delta (every single-bit flip of the unit for units <= 8 bytes, else bits {0,1,7,8,mid,last-1,last}, a full byte, a full unit); oracle: dec(c xor delta@j) equals the reference exactly AND the difference to dec(c) has the prescribed support (CBC: block j changed, block j+1 = delta, rest equal; CFB: block j = delta, block j+1 changed, rest equal; CFB-8: byte j = delta, changes confined to the next bs bytes; CTR/OFB/BelT: only delta at j; PCBC/IGE: block j changed, later blocks as the reference predicts); causality for both directions; stream modes: output xor input and end state identical for every ordered pair of data patterns; backend call shapes identical across data patterns. Non-zero claims only where bijectivity guarantees them".into();
+    o.rule = "stateless exhaustive: mode x configuration x IV x data x n units (blocks; bytes for CFB-8 and the stream modes) x call schedule (one call in place; one call b2b; one unit then the rest; two units b2b then the rest; empty calls before and between) x position j x difference delta (every single-bit flip of the unit for units <= 8 bytes, else bits {0,1,7,8,mid,last-1,last}, a full byte, a full unit); oracle: dec(c xor delta@j) equals the reference exactly AND the difference to dec(c) has the prescribed support (CBC: block j changed, block j+1 = delta, rest equal; CFB: block j = delta, block j+1 changed, rest equal; CFB-8: byte j = delta, changes confined to the next bs bytes; CTR/OFB/BelT: only delta at j; PCBC/IGE: block j changed, later blocks as the reference predicts); causality for both directions; stream modes: output xor input and end state identical for every ordered pair of data patterns; backend call shapes identical across data patterns. Non-zero claims only where bijectivity guarantees them".into();
     o.configs = cfgs.iter().map(|c| c.name.clone()).collect();
     o.bounds = vec![("blocks".into(), J::Int(tier.pick(6, 9))), ("bytes_for_byte_modes".into(), J::Str(tier.pick("min(2*bs+3, 40)", "min(3*bs+3, 80)").into()))];
     o
